@@ -473,4 +473,99 @@ theorem construct_example :
       ⟨some "Foo.s".toList, some "'abc'".toList, "Expected a maximum length of 2".toList⟩ := by
   decide
 
+/-! ### deserialization, phase one (collect-all mode reports what `construct_fields_map` collected
+    before the constructor ever runs) -/
+
+theorem numOk_strip (o : NumOpts) (q : Q) (h : numOk o q = true) :
+    numOk { o with sign := .any } q = true := by
+  simp only [numOk, Bool.and_eq_true] at h ⊢
+  exact ⟨h.1, rfl⟩
+
+/-- phase one never rejects a scalar the constructor would accept: dropping the sign mixin only
+    weakens the check -/
+theorem phase_one_scalar_sound (O : Oracles) (f : FieldDecl) (v : PyVal)
+    (hs : isScalarDecl f = true) (h : p1Scalar O f v = true) : isOk (validate O f v) = false := by
+  cases hv : isOk (validate O f v) with
+  | false => rfl
+  | true =>
+    exfalso
+    have hstrip : isOk (validate O (stripSign f) v) = true := by
+      cases f <;> simp only [isScalarDecl] at hs <;> try exact hv
+      all_goals (simp only [stripSign, validate] at hv ⊢)
+      · rename_i o
+        unfold vNumber at hv ⊢
+        cases hq : v.asNum with
+        | none => simp [hq, isOk] at hv
+        | some q =>
+          simp only [hq] at hv ⊢
+          by_cases hn : numOk o q = true
+          · simp [numOk_strip o q hn, isOk]
+          · simp [hn, isOk] at hv
+      · rename_i o
+        unfold vInteger at hv ⊢
+        cases v <;> simp only [isOk] at hv ⊢ <;> try exact hv
+        · rename_i b
+          by_cases hn : numOk o (Q.ofInt (if b = true then 1 else 0)) = true
+          · simp [numOk_strip o _ hn]
+          · simp [hn] at hv
+        · rename_i i
+          by_cases hn : numOk o (Q.ofInt i) = true
+          · simp [numOk_strip o _ hn]
+          · simp [hn] at hv
+      · rename_i o
+        unfold vFloat at hv ⊢
+        cases v <;> simp only [isOk] at hv ⊢ <;> try exact hv
+        · rename_i i
+          by_cases hn : numOk o (Q.ofInt i) = true
+          · simp [numOk_strip o _ hn]
+          · simp [hn] at hv
+        · rename_i q
+          by_cases hn : numOk o q = true
+          · simp [numOk_strip o _ hn]
+          · simp [hn] at hv
+    simp [p1Scalar, hstrip] at h
+
+/-- `Float._validate` converts a non-bool int first: in phase one an int-spelled number is
+    rejected exactly when the float it denotes is (all bounds, all ints) -/
+theorem phase_one_float_spelling (O : Oracles) (o : NumOpts) (i : Int) :
+    p1Scalar O (.float o) (.int i) = p1Scalar O (.float o) (.float (Q.ofInt i)) := by
+  simp only [p1Scalar, stripSign, validate, vFloat]
+
+/-- … at top level and as an element of every collection kind (`Float(maximum=10)` given `11`) -/
+theorem phase_one_float_int_examples :
+    let f : FieldDecl := .float { max := some (Q.ofInt 10) }
+    let O : Oracles := exOracles
+    p1Rejects O f (.int 11) = true ∧ p1Rejects O f (.int 10) = false ∧
+    p1Rejects O (.seqOf .list f {}) (.list [.int 1, .int 11]) = true ∧
+    p1Rejects O (.seqOf .deque f {}) (.list [.int 1, .int 11]) = true ∧
+    p1Rejects O (.setOf false f {}) (.list [.int 11]) = true ∧
+    p1Rejects O (.tupleOf f false) (.list [.int 11]) = true ∧
+    p1Rejects O (.tuplePos [.string none none none, f] false) (.list [.str "a", .int 11]) = true ∧
+    p1Rejects O (.mapOf (.string none none none) f {}) (.dict [(.str "k", .int 11)]) = true := by
+  decide
+
+/-- collect-all deserialization reports exactly the invalid supplied fields iff phase one rejects
+    none of them or all of them -/
+theorem deser_collect_exact_iff (O : Oracles) (c : ClassOpts) (doc kw : List (String × PyVal))
+    (fields : List (String × FieldDecl)) :
+    deserCollected O c doc kw fields = invalidFields O c kw fields ↔
+      phaseOneInvalid O doc fields = [] ∨
+      phaseOneInvalid O doc fields = invalidFields O c kw fields := by
+  unfold deserCollected
+  cases h : phaseOneInvalid O doc fields with
+  | nil => simp
+  | cons a as => simp
+
+/-- finding `collect-all:missing-field:deser-two-phase`: `i: PositiveInt`, `s: String` given
+    `{'i': -1, 's': 5}` — both invalid, phase one sees only `s`, and that is all that is reported -/
+theorem two_phase_example :
+    let O : Oracles := exOracles
+    let c : ClassOpts := { name := "Foo", required := [] }
+    let fields : List (String × FieldDecl) :=
+      [("i", .integer { sign := .pos }), ("s", .string none none none)]
+    let doc : List (String × PyVal) := [("i", .int (-1)), ("s", .int 5)]
+    invalidFields O c doc fields = ["i", "s"] ∧ phaseOneInvalid O doc fields = ["s"] ∧
+    deserCollected O c doc doc fields = ["s"] := by
+  decide
+
 end Typedpy.C18
